@@ -48,6 +48,30 @@ CLAIMED = {
         'technique': 'contract-based deductive verification (Verus) of extracted real code',
         'design_ref': 'DESIGN.md 5/C13',
     },
+    'C14': {
+        'text': 'Deductive proof (Verus) on the verbatim bodies of bip_equal, bip_less_than, bip_less_than_or_equal, bip_greater_than, bip_greater_than_or_equal and get_two_constants, '
+                'with get_constant / get_ground_term proved in unit subst: a success returns the identical substitution (no binding), happens only when both operands resolve - through variable chains of any length - '
+                'to comparable constants, and for integer/integer and atom/atom operands happens exactly when the machine-integer order / String::cmp order says so. '
+                'Float and integer/float arms: exec f64 comparison is unspecified in Verus; they are decided by Kani harnesses in the thorough tier.',
+        'note': "Trusted: String::cmp = uninterpreted total order with Equal<=>same text (T3), derived PartialEq of Ordering (T3), T1, T2, T4, T5. 'At most once' lives in the solver node (not covered).",
+        'technique': 'contract-based deductive verification (Verus) of extracted real code; Kani harnesses for float arms',
+        'design_ref': 'DESIGN.md 5/C14',
+    },
+    'C16': {
+        'text': 'Deductive proof (Verus) on the verbatim body of next_solution_append: the output term is unified (clause set of unify) with list_of(flat), the exact list value whose elements are, in argument order, '
+                'the elements of each list argument continuing through bound tail variables (spec thru, proved for get_terms) and each resolved non-list argument. Unbounded in the number and length of arguments.',
+        'note': 'Trusted: T1, T2, T4, T5; Vec::append spec of vstd. Inputs that are unbound or have unbound/anonymous tails are excluded by the precondition (outside the statement). Termination of the tail walk is not proved. At-most-once lives in the solver node.',
+        'technique': 'contract-based deductive verification (Verus) of extracted real code',
+        'design_ref': 'DESIGN.md 5/C16',
+    },
+    'C17': {
+        'text': 'Deductive proof (Verus) on the verbatim bodies of count_terms, get_terms, filter, pass_filter, get_list_data, bip_count, bip_include, bip_exclude: count = length of the element sequence continuing through bound tails; '
+                'include/exclude = list_of(the subsequence, in order, of elements for which unify with the filter term succeeds / fails), unified with the output only (nothing else bound); get_terms (used by join) = resolved value or element sequence. '
+                'PARTIAL: functor and the string assembly of join are not yet under contract.',
+        'note': "Trusted: purity of unify (uninterpreted unify_ok tied to the result at call sites only), T1, T2, T4, T5. Termination of the tail walks not proved.",
+        'technique': 'contract-based deductive verification (Verus) of extracted real code',
+        'design_ref': 'DESIGN.md 5/C17',
+    },
     'C15': {
         'text': 'Deductive proof (Verus) on the verbatim bodies of make_linked_list and link_front: for every term vector satisfying the call-site precondition the result is a well-formed list '
                 '(empty-node terminated, per-node count = nodes to the end, only the last node a tail variable) whose element sequence, tail and length are exactly those of the statement '
